@@ -61,10 +61,29 @@ def terminal_polygon_points(term, film, xi):
     return pts
 
 
-def build_device(spec, mesh_from=None):
-    """Build (or fetch from the per-worker cache) a meshed tdgl.Device."""
+def build_device(spec, mesh_from=None, history=None):
+    """Build (or fetch from the per-worker cache) a meshed tdgl.Device.
+
+    history: optional list of earlier mesh settings; the SAME Device object is meshed with each
+    of them and used (terminal_info, probe indices) before it gets its final mesh - the
+    life cycle "mesh, look, re-mesh, solve" of an interactive session."""
     import tdgl
 
+    if history:
+        first = dict(spec, mesh=history[0])
+        dev = build_device(first, mesh_from=None, history=None)
+        # never mutate a cached object: work on a private copy that keeps the mesh
+        dev = dev.copy(with_mesh=True)
+        xi = spec["layer"]["xi"]
+        for step in list(history[1:]) + [spec.get("mesh", {})]:
+            try:
+                dev.terminal_info()
+                _ = dev.probe_point_indices
+                mel = step.get("max_edge_length", 0)
+                dev.make_mesh(max_edge_length=(mel * xi if mel else 0), min_points=step.get("min_points"), smooth=step.get("smooth", 0))
+            except Exception as e:
+                raise Discard(f"mesh: {type(e).__name__}: {str(e)[:80]}")
+        return dev
     key = digest_obj(spec)
     if mesh_from is None and key in _DEVICE_CACHE:
         return _DEVICE_CACHE[key]
